@@ -60,7 +60,7 @@ def _root_coord_expectations(prog):
 def _ds_summary(ds):
     out = {"vars": {}, "coords": {}}
     for k in ds.data_vars:
-        out["vars"][str(k)] = (list(map(str, ds[k].dims)), progs.to_nested(ds[k].values))
+        out["vars"][str(k)] = (list(map(str, ds[k].dims)), progs.xr_nested(ds[k].values))
     for k in ds.coords:
         c = ds.coords[k]
         out["coords"][str(k)] = (list(map(str, c.dims)), [str(x) for x in c.values.tolist()] if c.ndim == 1 else "nd")
@@ -161,7 +161,7 @@ def _check(case):
                                 return nested[pos]
                             return [take(x, depth + 1) for x in nested]
                         expect = take(ovals)
-                        if progs.to_nested(sel.values) != expect and progs.fz(sel.values) != progs.fz(expect):
+                        if progs.xr_nested(sel.values) != expect and progs.fz(sel.values) != progs.fz(expect):
                             bad.append(f"ds[{o}].sel({name}={v0!r}) returned {progs.fz(sel.values)[:100]}, the element "
                                        f"computed from that input value is {progs.fz(expect)[:100]}")
                         break
